@@ -14,7 +14,8 @@ PRIORS = ['id', 'affine', 'inplace', 'Prior', 'PriorArr']
 
 class Model:
     def __init__(self, kind='gauss', n_dim=2, K=8, seed=0, blob='none', prior='id',
-                 vectorized=False, record=True, cells_lv=None):
+                 vectorized=False, record=True, cells_lv=None, smooth=False):
+        self.smooth = smooth            # un-quantised log-likelihood (sensitive to one-ulp differences; C11 only)
         self.cells_lv = cells_lv        # kind 'cells': level of each vertical strip (spec/CellWorld.tla)
         self.kind, self.n_dim, self.K, self.seed = kind, n_dim, K, seed
         self.blob, self.prior_mode, self.vectorized = blob, prior, vectorized
@@ -125,6 +126,9 @@ class Model:
     def _one(self, theta):
         lv = self.level_theta(theta)
         ll = self.loglike_of_level(lv)
+        if self.smooth:
+            v = self._v((np.asarray(theta, dtype=float) - self.lo) / self.w)
+            ll = float(np.log(v)) if v > 0 else -np.inf
         code = self.code_theta(theta)
         return ll, self.make_blob(code, lv)
 
